@@ -3,5 +3,5 @@ From Coq Require Import ExtrOcamlBasic.
 From AIT Require Import Base.Vio Base.Qx Base.Mdp C08.Model C08.Spec.
 Extraction "model.ml" vio_kit qsum nonnegb is_distb veqb
   sample_dense sample_sparse sample_sparse_fix vose_cur vose_fix alias_sample random_prob
-  project_cur project_fix possum poscount sample_sr sample_sor sample_or drop_small sparse_store_ok trow orow wf_mdpb
+  project_cur project_fix possum poscount sample_sr sample_sor sample_or drop_small sparse_store_ok to_index_partial coop_rewards coop_reward coop_next trow orow wf_mdpb
   dense_selb dense_mass is_prob_tolb expand cols_ok alias_mass alias_table_ok alias_table_slack_ok.
